@@ -7,5 +7,6 @@ CONSTANTS
  Defect_SharedBucketHandle = TRUE
  Defect_NoVersionCheck = TRUE
  AllowEvict = TRUE
+ Defect_ReaderUnlocked = FALSE
 INVARIANTS CoherentWhenIdle
 CHECK_DEADLOCK FALSE
